@@ -9,7 +9,7 @@
    with all optionals absent (regenerated tables, re-checked each run).
    UTF-8 text and date-times are families too (Utf8Props.v, DateTimeProps.v). *)
 From Zvt Require Import Base Length LengthProps Cp437 Encoding EncodingProps Codec CodecFrame CodecRoundtrip
-  CodecTags CodecFields CodecCanon CanonClass CanonRoundtrip CanonRun CanonShipped Lookup.
+  CodecTags CodecFields CodecCanon CanonClass CanonRoundtrip CanonRun CanonShipped Lookup LegacyCodec.
 Open Scope N_scope.
 
 (* commands (packets with a control field) *)
@@ -52,6 +52,16 @@ Theorem C01_class_all_cp437_text : forall ls tag s pl ctx,
   cp437_enc s = Ok pl -> (forall q x, s = q ++ [x] -> x <> 0) ->
   exists g, canon ls EDefault (TPrim PString) tag (VStr s) ctx = Some g.
 Proof. exact class_cp437. Qed.
+Theorem C01_class_all_cp437_text_in_fixed_fields : forall k tag s pl ctx, tag_ok_b tag = true ->
+  cp437_enc s = Ok pl -> (forall q x, s = q ++ [x] -> x <> 0) -> blen pl <= k ->
+  exists g, canon (LFixed k) EDefault (TPrim PString) tag (VStr s) ctx = Some g.
+Proof. exact class_cp437_fixed. Qed.
+(* the finding F9: before the repair such text was padded in front and came back altered; now it is padded where the decoder trims *)
+Theorem C01_F9_refuted_then_repaired :
+  cp437_dec (legacy_fixed_text 8 [55; 53; 48; 48; 55; 49]) = [0; 0; 55; 53; 48; 48; 55; 49] /\
+  (framed_enc_p (LFixed 8) PString (Some 59) [55; 53; 48; 48; 55; 49] = Ok [59; 55; 53; 48; 48; 55; 49; 0; 0]
+   /\ cp437_dec [55; 53; 48; 48; 55; 49; 0; 0] = [55; 53; 48; 48; 55; 49]).
+Proof. exact F9_both. Qed.
 Theorem C01_class_all_hex_text : forall ls tag n s ctx,
   delimiting ls = true -> len_fits ls (N.of_nat n) = true -> tag_ok_b tag = true ->
   length s = (2 * n)%nat -> Forall lower_hex s ->
@@ -105,6 +115,8 @@ Print Assumptions C01_roundtrip_commands.
 Print Assumptions C01_roundtrip_containers.
 Print Assumptions C01_roundtrip_any_field.
 Print Assumptions C01_class_all_integers.
+Print Assumptions C01_class_all_cp437_text_in_fixed_fields.
+Print Assumptions C01_F9_refuted_then_repaired.
 Print Assumptions C01_class_all_integers_without_length.
 Print Assumptions C01_class_all_bcd_numbers.
 Print Assumptions C01_class_all_cp437_text.
